@@ -122,6 +122,33 @@ done:
     ZSTD_freeCCtx(c); ZSTD_freeCDict(cd); ZSTD_freeDDict(dd); ZSTD_freeCCtxParams(P);
 }
 
+/* --mode 3: a structured dictionary (it starts with the dictionary magic) that the caller declares to be RAW CONTENT stays raw content on every path: no ID in
+ * the frame, no entropy tables taken from it, whatever the attachment strategy (default / attach / copy / load) */
+static void body_rawcontent(void) {
+    int di = vx_choose(g_nd), cs = vx_choose(3), attach = vx_choose(4), li = vx_choose(3); const drec_t* D = &g_d[di]; static const int LV[] = {1, 3, 13};
+    vx_label("rawcontent dict#%d supply%d attach%d level%d ;; %s", di, cs, attach, LV[li], D->name);
+    if (!(D->n >= 8 && vf_rd32(D->d) == 0xEC30A437u)) { vx_obs_u64(41); return; }
+    ZSTD_CCtx* c = ZSTD_createCCtx(); ZSTD_CDict* cd = NULL; static u8 rawcopy[1 << 16];
+    for (int shape = 2; shape <= 7 && !vx_failed; shape += (shape == 3 ? 3 : 1)) {
+        size_t n = make_input(shape, D, g_src), r;
+        ZSTD_CCtx_reset(c, ZSTD_reset_session_and_parameters); ZSTD_CCtx_setParameter(c, ZSTD_c_compressionLevel, LV[li]); if (attach) ZSTD_CCtx_setParameter(c, ZSTD_c_forceAttachDict, attach);
+        if (cs == 0) { if (!cd) { ZSTD_compressionParameters cp = ZSTD_getCParams(LV[li], 0, D->n); cd = ZSTD_createCDict_advanced(D->d, D->n, ZSTD_dlm_byCopy, ZSTD_dct_rawContent, cp, ZSTD_defaultCMem); } if (!cd) { vx_fail("createCDict refuses raw content"); break; } ZSTD_CCtx_refCDict(c, cd); }
+        else if (cs == 1) { size_t e = ZSTD_CCtx_loadDictionary_advanced(c, D->d, D->n, ZSTD_dlm_byRef, ZSTD_dct_rawContent); if (ZSTD_isError(e)) { vx_fail("loadDictionary refuses raw content: %s", ZSTD_getErrorName(e)); break; } }
+        else ZSTD_CCtx_refPrefix_advanced(c, D->d, D->n, ZSTD_dct_rawContent);
+        r = ZSTD_compress2(c, g_dst, ZSTD_compressBound(n), g_src, n);
+        if (ZSTD_isError(r)) { vx_fail("compression with a raw-content dictionary that starts with the dictionary magic fails (shape %d): %s", shape, ZSTD_getErrorName(r)); break; }
+        if (ZSTD_getDictID_fromFrame(g_dst, r) != 0) { vx_fail("frame compressed with a RAW CONTENT dictionary carries dictionary ID %u", ZSTD_getDictID_fromFrame(g_dst, r)); break; }
+        {   ZSTD_DDict* dd = ZSTD_createDDict_advanced(D->d, D->n, ZSTD_dlm_byRef, ZSTD_dct_rawContent, ZSTD_defaultCMem); ZSTD_DCtx* d = ZSTD_createDCtx();
+            size_t o = ZSTD_decompress_usingDDict(d, g_out, SRCCAP, g_dst, r, dd);
+            if (ZSTD_isError(o) || o != n || memcmp(g_out, g_src, n)) vx_fail("frame made with a raw-content dictionary does not decode with the same bytes as raw content: %s", ZSTD_isError(o) ? ZSTD_getErrorName(o) : "content differs");
+            ZSTD_freeDCtx(d); ZSTD_freeDDict(dd); }
+        if (!vx_failed && D->n + 1 <= sizeof rawcopy) { refcheck_t rc; rc_init(&rc); rc.interop = 1; rc.expectDictID = 0; rawcopy[0] = 0; memcpy(rawcopy + 1, D->d, D->n);
+            if (ref_check(&rc, g_dst, r, rawcopy, D->n + 1, g_src, n, g_scratch, SRCCAP)) vx_fail("reference decoder with the bytes as raw content: %s", rc.err); }
+        vx_obs_u64(vx_hash(g_dst, r)); vx_nontrivial();
+    }
+    ZSTD_freeCCtx(c); ZSTD_freeCDict(cd);
+}
+
 static void body_corrupt(void) {
     /* every single-byte corruption of the first 200 bytes of a structured dictionary: both sides stay memory-safe */
     int di = vx_choose(g_nd); const drec_t* D = &g_d[di]; int li = vx_choose(3);
@@ -175,5 +202,5 @@ static void body_hashset(void) {
     vx_obs_u64((uint64_t)(slot * 1000 + ncoll * 100 + nfill)); vx_nontrivial(); vx_stat_add("hashset_lookups", n);
 }
 
-static void body(void) { if (g_mode == 0) body_roundtrip(); else if (g_mode == 1) body_corrupt(); else body_hashset(); }
+static void body(void) { if (g_mode == 0) body_roundtrip(); else if (g_mode == 1) body_corrupt(); else if (g_mode == 3) body_rawcontent(); else body_hashset(); }
 int main(int argc, char** argv) { return vx_main(argc, argv, init, body); }
